@@ -32,6 +32,7 @@ CASES = [
     ("obj a obj b user u refs a b : more b, a ; user v refs b a : ;", 'three lists in two objects'),
     ("obj a obj b obj c obj d user u refs a b c d : ;", 'one list of 4'),
     ("obj a obj b obj c user u refs a a b : more c, a, b ;", 'repeated targets, two lists'),
+    ("obj a obj b obj c user u refs a b a : more c, a, c ;", 'non-adjacent repeats of a name within one list'),
 ]
 
 
@@ -75,7 +76,10 @@ def run_case(ci, max_rounds, timeout_ms):
                     bad.append({'user': u.name, 'attr': an, 'got': got, 'expected': exp})
         return ('bad' if bad else 'ok', bad, sorted(sched))
     outs = ctx.explore(path)
-    if not any(o[0] == 'ok' for o in outs):
+    # the schedule without any postponement is an ordinary load of a valid model
+    outs = [('bad', [{'error': 'load without any postponement fails: %s' % o[1]}], o[2])
+            if o[0] == 'fail' and not o[2] else o for o in outs]
+    if not any(o[0] in ('ok', 'bad') for o in outs):
         raise RuntimeError('vacuous case (no schedule loads): %r -> %r' % (text, outs[:1]))
     return ctx, outs
 
@@ -160,7 +164,7 @@ def main():
     import textx.model as M
     chk = Check(PROP, 'exploration')
     quick = chk.tier == 'quick'
-    cases = [0, 1, 2] if quick else list(range(len(CASES)))
+    cases = [0, 1, 2, 5] if quick else list(range(len(CASES)))
     max_rounds = 2 if quick else 3
     timeout_ms = 20000
     items = [(ci, max_rounds, timeout_ms) for ci in cases]
